@@ -5,40 +5,6 @@ use crate::c06::*;
 
 /// Test generated for harness `c06::c06_lag_vdiff_fill_f64_n2` 
 ///
-/// Check for `cover`: "prefix not longer than the lag, whole series longer"
-///
-/// # Warning
-///
-/// Concrete playback tests combined with stubs or contracts is highly
-/// experimental, and subject to change.
-///
-/// The original harness has stubs which are not applied to this test.
-/// This may cause a mismatch of non-deterministic values if the stub
-/// creates any non-deterministic value.
-/// The execution path may also differ, which can be used to refine the stub
-/// logic.
-
-#[test]
-fn kani_concrete_playback_c06_lag_vdiff_fill_f64_n2_12604707251630543488() {
-    let concrete_vals: Vec<Vec<u8>> = vec![
-        // 0
-        vec![0],
-        // 0
-        vec![0, 0, 0, 0],
-        // 0
-        vec![0],
-        // 0
-        vec![0, 0, 0, 0],
-        // 1
-        vec![1, 0, 0, 0],
-        // 0
-        vec![0, 0, 0, 0],
-    ];
-    kani::concrete_playback_run(concrete_vals, c06_lag_vdiff_fill_f64_n2);
-}
-
-/// Test generated for harness `c06::c06_lag_vdiff_fill_f64_n2` 
-///
 /// Check for `assertion`: ""lag: item i over the prefix is bit-for-bit item i over the whole series""
 ///
 /// # Warning
@@ -67,6 +33,40 @@ fn kani_concrete_playback_c06_lag_vdiff_fill_f64_n2_6294073362931293891() {
         vec![1, 0, 0, 0],
         // 1
         vec![1, 0, 0, 0],
+    ];
+    kani::concrete_playback_run(concrete_vals, c06_lag_vdiff_fill_f64_n2);
+}
+
+/// Test generated for harness `c06::c06_lag_vdiff_fill_f64_n2` 
+///
+/// Check for `cover`: "prefix not longer than the lag, whole series longer"
+///
+/// # Warning
+///
+/// Concrete playback tests combined with stubs or contracts is highly
+/// experimental, and subject to change.
+///
+/// The original harness has stubs which are not applied to this test.
+/// This may cause a mismatch of non-deterministic values if the stub
+/// creates any non-deterministic value.
+/// The execution path may also differ, which can be used to refine the stub
+/// logic.
+
+#[test]
+fn kani_concrete_playback_c06_lag_vdiff_fill_f64_n2_12604707251630543488() {
+    let concrete_vals: Vec<Vec<u8>> = vec![
+        // 0
+        vec![0],
+        // 0
+        vec![0, 0, 0, 0],
+        // 0
+        vec![0],
+        // 0
+        vec![0, 0, 0, 0],
+        // 1
+        vec![1, 0, 0, 0],
+        // 0
+        vec![0, 0, 0, 0],
     ];
     kani::concrete_playback_run(concrete_vals, c06_lag_vdiff_fill_f64_n2);
 }
